@@ -442,16 +442,19 @@ def _split(shape, levels=2):
 def _shapes_messaging(tier):
     _preimport()
     # symbolic message types: one engine path per (history, ordering of the types), ~5-10 ms each
-    s = (_split(dict(n_ops=3, prio="sym"))                                               # ~3 800 paths in all
-         + _split(dict(n_ops=4, prio="sym_hi", senders=["s_loc"]))                       # ~2 400
-         + _split(dict(n_ops=3, prio="mixed", senders=["r_snd"], late=["b_late"])))      # ~2 600
+    s = [dict(n_ops=3, prio="sym", senders=["s_loc"]),                            # ~630 paths
+         dict(n_ops=3, prio="sym", senders=["r_snd"], late=["b_late"]),           # ~630
+         dict(n_ops=3, prio="sym_hi")]                                            # ~1 240
     if tier == "thorough":
-        s += (_split(dict(n_ops=4, prio="sym"))
-              + _split(dict(n_ops=5, prio="sym_hi", senders=["s_loc"]))
-              + _split(dict(n_ops=4, prio="sym", senders=["r_snd"], late=["b_late"]))
-              + _split(dict(n_ops=4, prio="mixed", senders=["s_loc"], late=["b_late"]))
-              + _split(dict(n_ops=3, prio="sym", late=["e_late", "b_late"]))
-              + _split(dict(n_ops=4, prio="sym_hi", senders=["s_loc"], unregister=True)))
+        s += (_split(dict(n_ops=4, prio="sym"), 1)
+              + _split(dict(n_ops=5, prio="sym_hi", senders=["s_loc"]), 1)
+              + [dict(n_ops=3, prio="sym"),
+                 dict(n_ops=4, prio="sym_hi", senders=["s_loc"]),
+                 dict(n_ops=3, prio="mixed", senders=["r_snd"], late=["b_late"]),
+                 dict(n_ops=4, prio="sym", senders=["r_snd"], late=["b_late"]),
+                 dict(n_ops=4, prio="mixed", senders=["s_loc"], late=["b_late"]),
+                 dict(n_ops=3, prio="sym", late=["e_late", "b_late"]),
+                 dict(n_ops=4, prio="sym_hi", senders=["s_loc"], unregister=True)])
     return s
 
 
